@@ -187,13 +187,20 @@ fn random_pattern(d: &mut Dec, adts: &[AdtDef], t: &Ty, depth: u32) -> Pat {
         Ty::Str => Pat::Str(STRS[d.below(3)].to_string()),
         Ty::Tuple(ts) => Pat::Tuple(ts.iter().map(|t| random_pattern(d, adts, t, depth - 1)).collect()),
         Ty::Adt(a, args) => match &adts[*a].kind {
-            AdtKind::Struct(fs) => Pat::Struct(
-                *a,
-                fs.iter()
+            AdtKind::Struct(fs) => {
+                let mut v: Vec<(u32, Pat)> = fs
+                    .iter()
                     .enumerate()
                     .map(|(i, (_, ft))| (i as u32, random_pattern(d, adts, &ft.subst(args), depth - 1)))
-                    .collect(),
-            ),
+                    .collect();
+                // written order is free
+                match d.below(3) {
+                    0 => v.reverse(),
+                    1 if v.len() > 1 => v.rotate_left(1),
+                    _ => {}
+                }
+                Pat::Struct(*a, v)
+            }
             AdtKind::Enum(vs) => {
                 let vi = d.below(vs.len());
                 Pat::Con(
@@ -262,12 +269,17 @@ fn instantiate(g: &mut Gen, adts: &[AdtDef], p: &Pat, t: &Ty, bound: &mut Vec<(V
         }
         (Pat::Struct(a, fs), Ty::Adt(_, args)) => {
             let AdtKind::Struct(fields) = &adts[*a].kind else { return Pat::Wild };
-            Pat::Struct(
-                *a,
-                fs.iter()
-                    .map(|(fi, p)| (*fi, instantiate(g, adts, p, &fields[*fi as usize].1.subst(args), bound)))
-                    .collect(),
-            )
+            // fields are matched by name: half of the struct patterns list them in another
+            // order than the declaration
+            let before = bound.len();
+            let mut v: Vec<(u32, Pat)> = fs
+                .iter()
+                .map(|(fi, p)| (*fi, instantiate(g, adts, p, &fields[*fi as usize].1.subst(args), bound)))
+                .collect();
+            if (before + v.len() + bound.len()) % 2 == 1 {
+                v.reverse();
+            }
+            Pat::Struct(*a, v)
         }
         (Pat::Con(a, vi, ps, q), Ty::Adt(_, args)) => {
             let AdtKind::Enum(vs) = &adts[*a].kind else { return Pat::Wild };
